@@ -1,5 +1,7 @@
 import Cuke.Lemmas.Sched
 import Cuke.Model.SchedLts
+import Cuke.Lemmas.SchedInv
+import Cuke.Props.C07
 /-!
 # C06 — Never more scenarios in flight than the concurrency limit
 Model: `Cuke.getBatch`, `Cuke.Slots.{ask,onDispatch,onConsume}`, `Cuke.SCfg.limit` and their use in the
@@ -20,17 +22,7 @@ theorem limit_resolution (c : SCfg) :
 
 /-- `get` never hands out more than it was asked for. -/
 theorem getBatch_length_le (ready : Entry → Bool) (n : Nat) (q : Queues) :
-    (getBatch ready (some n) q).1.length ≤ n := by
-  unfold getBatch
-  by_cases h0 : n = 0
-  · simp [h0]
-  · have hz : ((some n : Option Nat) == some 0) = false := by simp [h0]
-    simp only [hz, Bool.false_eq_true, if_false]
-    split
-    · have := drainQ_length_le ready 1 q.serial
-      simp only
-      omega
-    · exact drainQ_length_le ready n q.conc
+    (getBatch ready (some n) q).1.length ≤ n := Cuke.SchedL.getBatch_length_le ready n q
 
 /-- Nothing is invented, duplicated or lost: batch and remaining queues partition the queues. -/
 theorem getBatch_conserves (ready : Entry → Bool) (ask : Option Nat) (q : Queues) :
@@ -148,5 +140,58 @@ def e2 : Entry := ⟨2, ⟨0, none, 2⟩, false, none, none⟩
 def e3 : Entry := ⟨3, ⟨0, none, 3⟩, false, none, none⟩
 example : (getBatch (fun _ => true) (some 2) ⟨[], [e1, e2, e3]⟩).1 = [e1, e2] := by decide
 example : LReach 2 ⟨0, 2⟩ := LReach.step LReach.init (LStep.dispatch ⟨2, 0⟩ 2 (by decide))
+
+/-! ## The limit over whole runs of the scheduler LTS -/
+
+open Cuke.SchedInv in
+/-- Good at the end means Good all along: the acceptor only appends disagreements -/
+theorem good_foldl_mono (c : SCfg) (ls : List Label) (s : SState) (hg : Good (ls.foldl (stepL c) s) = true) : Good s = true := by
+  induction ls generalizing s with
+  | nil => exact hg
+  | cons l rest ih => exact good_step_mono c s l (ih (stepL c s l) hg)
+
+open Cuke.SchedInv in
+theorem foldl_inv (c : SCfg) (ls : List Label) (s : SState) (h : InvK c s) (hg : Good (ls.foldl (stepL c) s) = true) :
+    InvK c (ls.foldl (stepL c) s) := by
+  induction ls generalizing s with
+  | nil => exact h
+  | cons l rest ih =>
+    have hgl : Good (stepL c s l) = true := good_foldl_mono c rest _ hg
+    exact ih (stepL c s l) (step_inv c s l h hgl) hg
+
+open Cuke.SchedInv in
+/-- **The slot ledger is an invariant of every accepted run.** For every log of probe labels that the
+    scheduler LTS accepts without a disagreement of classes K / I / Q (what the trace correspondence checks
+    on every real run): before the hook is taken nothing runs; afterwards free + in-flight = limit (once
+    fail-fast tripped: in-flight ≤ limit); and a batch returned by `get` fits the free slots. -/
+theorem lts_slots_invariant (c : SCfg) (ls : List Label) (hg : Good (accept c ls) = true) : InvK c (accept c ls) :=
+  foldl_inv c ls {} ⟨fun _ => ⟨rfl, rfl⟩, fun h => absurd rfl h, fun h => by cases h⟩ hg
+
+open Cuke.SchedInv in
+/-- **C06 over whole runs**: in an accepted run, at EVERY moment (after every prefix of the log) the number
+    of scenario attempts in flight is at most the resolved limit — for every schedule, parser behaviour,
+    retry pattern and fail-fast trip. -/
+theorem lts_inflight_le_limit (c : SCfg) (ls : List Label) (k : Nat) (hk : c.limit = some k)
+    (hg : Good (accept c ls) = true) (pre suf : List Label) (hsplit : ls = pre ++ suf) :
+    (accept c pre).running.length + (accept c pre).endedUnconsumed ≤ k := by
+  subst hsplit
+  have hgp : Good (accept c pre) = true := by
+    simp only [accept, foldl_append] at hg
+    exact good_foldl_mono c suf _ hg
+  have hinv := lts_slots_invariant c pre hgp
+  by_cases hi : (accept c pre).phase = .init
+  · obtain ⟨h1, h2⟩ := hinv.1 hi
+    simp [h1, h2]
+  · have := hinv.2.1 hi k hk
+    cases hsl : (accept c pre).slots with
+    | brk => rw [hsl] at this; exact this
+    | cont fo =>
+      cases fo with
+      | none => rw [hsl] at this; exact absurd this (by simp [slotsOk])
+      | some f => rw [hsl] at this; simp only [slotsOk] at this; omega
+
+/-- the hypothesis is what the check establishes: the witness log of F-C07 (a real run shape) is accepted
+    with no disagreement at all, hence Good -/
+example : Cuke.SchedInv.Good (accept Cuke.C07.wcfg Cuke.C07.witness) = true := by decide +kernel
 
 end Cuke.C06
